@@ -53,6 +53,7 @@ import (
 	"path/filepath"
 	"reflect"
 	"sort"
+	"strconv"
 	"strings"
 
 	"github.com/gnolang/gno/gnovm/pkg/gnoenv"
@@ -382,11 +383,45 @@ func litEqual(a, b *ast.BasicLit) bool {
 		return true
 	}
 	switch a.Kind {
-	case token.INT, token.FLOAT, token.IMAG:
+	case token.INT, token.FLOAT, token.IMAG: // format.Source rewrites 0X1F, 1E3, 0B1 ... : compare the values
 		x, y := constant.MakeFromLiteral(a.Value, a.Kind, 0), constant.MakeFromLiteral(b.Value, b.Kind, 0)
 		return x.Kind() != constant.Unknown && y.Kind() != constant.Unknown && constant.Compare(x, token.EQL, y)
+	case token.STRING, token.CHAR: // go/printer drops carriage returns from raw strings, as the language does
+		x, err1 := strconv.Unquote(a.Value)
+		y, err2 := strconv.Unquote(b.Value)
+		return err1 == nil && err2 == nil && x == y
 	}
 	return false
+}
+
+var (
+	exprType  = reflect.TypeOf((*ast.Expr)(nil)).Elem()
+	stmtsType = reflect.TypeOf([]ast.Stmt(nil))
+)
+
+// unparen: go/printer strips the outermost parentheses of if/for/switch headers; a
+// parenthesis never changes the tree below it, so expressions are compared without them.
+func unparen(v reflect.Value) reflect.Value {
+	for v.Type() == exprType && !v.IsNil() {
+		p, ok := v.Interface().(*ast.ParenExpr)
+		if !ok {
+			break
+		}
+		v = reflect.ValueOf(&p.X).Elem()
+	}
+	return v
+}
+
+// go/printer does not print explicit empty statements
+func dropEmpty(v reflect.Value) reflect.Value {
+	ss := v.Interface().([]ast.Stmt)
+	out := make([]ast.Stmt, 0, len(ss))
+	for _, s := range ss {
+		if _, ok := s.(*ast.EmptyStmt); !ok {
+			out = append(out, s)
+		}
+	}
+	return reflect.ValueOf(out)
 }
 
 // astEqual: structural equality ignoring positions, comments and parser resolution results.
@@ -397,6 +432,10 @@ func astEqual(a, b reflect.Value) bool {
 	switch a.Type() {
 	case posType, cgType, objType, scopeType:
 		return true
+	case exprType:
+		a, b = unparen(a), unparen(b)
+	case stmtsType:
+		a, b = dropEmpty(a), dropEmpty(b)
 	}
 	switch a.Kind() {
 	case reflect.Interface, reflect.Ptr:
@@ -405,6 +444,12 @@ func astEqual(a, b reflect.Value) bool {
 		}
 		if a.Kind() == reflect.Ptr && a.Type() == basicLitPtr {
 			return litEqual(a.Interface().(*ast.BasicLit), b.Interface().(*ast.BasicLit))
+		}
+		if a.Kind() == reflect.Interface {
+			if _, ok := a.Interface().(*ast.EmptyStmt); ok {
+				_, ok2 := b.Interface().(*ast.EmptyStmt)
+				return ok2
+			}
 		}
 		return astEqual(a.Elem(), b.Elem())
 	case reflect.Struct:
